@@ -287,7 +287,7 @@ fn strat_case(acc: &mut Acc, tier: Tier, idx: u64, op: &Op, placement: u8) {
 fn unit_lattice(tier: Tier) -> Vec<[f32; 3]> {
     let n: usize = tier.pick(9, 17);
     let mut a: Vec<f32> = (0..n).map(|i| i as f32 / (n - 1) as f32).collect();
-    a.extend([1e-6, 1e-3, f32::MIN_POSITIVE, 0.999_999_94]);
+    a.extend([1e-6, 1e-3, f32::MIN_POSITIVE, 0.999_999_94, -0.0, f32::from_bits(1)]);
     let l = a.len();
     (0..l * l * l).map(|i| [a[i / (l * l)], a[(i / l) % l], a[i % l]]).collect()
 }
@@ -377,7 +377,7 @@ pub fn run(tier: Tier) -> Report {
     rep.bound = format!(
         "stages (each in a child process): {}; special alphabet = 48 values (+-0, subnormals, thresholds, 1.5, 255, 65535.5, 1e10, 3e38, max, inf, quiet/signalling NaN), full cubes through all 14x11 curve/primaries pairs in both directions, all 140 encode configs, XYB and HSL both ways, and the composite LinearRgb/Xyb->Yuv, Rgb<->Xyb paths over 14 curves x 11 primaries x 7 matrices x 2 ranges x depths; stratified = every f32 bit pattern whose low {} bits are all-0 or all-1 ({} patterns) on each component in turn (others 0.5) and on all three; unit cube lattice {}^3 for finiteness",
         st.stages.iter().map(|(n, t)| format!("{n}: {t} cases")).collect::<Vec<_>>().join("; "),
-        strat_bits(tier), strat_len(tier), tier.pick(13, 21)
+        strat_bits(tier), strat_len(tier), tier.pick(15, 23)
     );
     rep.rule = "every conversion runs inside catch_unwind in a child process: no panic, no abort; every produced YUV image has max sample <= 2^n-1 and is accepted again by Yuv::new; finite inputs in [0,1]^3 give finite outputs".into();
     rep.assumptions = vec!["image dimensions compatible with the subsampling (4:4:4 here); other sizes are covered by C07/C11/C12".into()];
